@@ -308,6 +308,18 @@ def named_cases():
                                        A.For(V("_"), A.lst(I(1), I(2)), [P(A.call("d")), A.FuncStmt("d", [], False, [A.Return(S("in loop"))]), P(A.call("d"))])],
         "fn_used_before_declared_in_block": [P(S("before")), A.Block([A.ExprStmt(A.call("later")), A.FuncStmt("later", [], False, [A.Return(I(1))])]), P(S("WRONG"))],
         "fn_used_before_declared_in_function": [A.FuncStmt("host", [], False, [A.Declare(V("r"), A.call("later2")), A.FuncStmt("later2", [], False, [A.Return(I(1))]), A.Return(V("r"))]), P(S("before")), P(A.call("host")), P(S("WRONG"))],
+        # a named function declared inside a function or loop body is created anew, with the bindings of that activation, every time
+        "nested_fn_per_activation": [A.FuncStmt("mk", [V("s")], False, [A.Declare(V("n"), I(0)), A.FuncStmt("get", [], False, [A.OpAssign("+", V("n"), I(1)), A.Return(A.lst(V("s"), V("n")))]), A.Return(V("get"))]),
+                                     A.Declare(V("ga"), A.call("mk", S("a"))), A.Declare(V("gb"), A.call("mk", S("b"))), P(A.call("ga")), P(A.call("gb")), P(A.call("ga")), P(A.Bin("===", V("ga"), V("gb"))),
+                                     A.Declare(V("fs"), A.lst()), A.For(A.lst(V("i"), V("v")), A.lst(S("x"), S("y")), [A.FuncStmt("show", [], False, [A.Return(A.lst(V("i"), V("v")))]), A.OpAssign("+", V("fs"), A.lst(V("show")))]),
+                                     P(A.Call(A.Index(V("fs"), I(0)), [])), P(A.Call(A.Index(V("fs"), I(1)), [])),
+                                     A.FuncStmt("twice", [V("p")], False, [A.FuncStmt("inner", [], False, [A.Return(V("p"))]), A.Return(A.call("inner"))]), P(A.call("twice", I(1))), P(A.call("twice", I(2)))],
+        # a function body sees the scope where the function was created, never the scopes of whoever calls it
+        "callee_does_not_see_caller_locals": [A.Declare(V("x"), S("global x")), A.FuncStmt("rd", [], False, [A.Return(V("x"))]), A.FuncStmt("wr", [], False, [A.Assign(V("x"), A.Bin("+", V("x"), S("!")))]),
+                                              A.Block([A.Declare(V("x"), S("block x")), P(A.call("rd")), A.ExprStmt(A.call("wr")), P(V("x"))]), P(V("x")),
+                                              A.FuncStmt("caller", [], False, [A.Declare(V("x"), S("caller x")), A.ExprStmt(A.call("wr")), A.Return(A.lst(A.call("rd"), V("x")))]), P(A.call("caller")),
+                                              A.For(V("x"), A.lst(I(1)), [P(A.call("rd")), A.ExprStmt(A.call("wr"))]), P(V("x")),
+                                              A.FuncStmt("undefd", [], False, [A.Return(V("only_in_caller"))]), A.Block([A.Declare(V("only_in_caller"), I(1)), P(S("next fails")), P(A.call("undefd"))])],
         "empty_function_scope": [A.Declare(V("x"), I(1)), A.FuncStmt("outer", [], False, [A.FuncStmt("inner", [], False, [A.Declare(V("x"), I(2)), A.Return(V("x"))]), A.Return(A.call("inner"))]),
                                  P(A.call("outer")), P(V("x")), A.Block([A.Block([A.Declare(V("x"), I(3)), P(V("x"))]), P(V("x"))])],
     }
